@@ -36,6 +36,16 @@ ASSUMPTIONS = [
     "+-inf is accepted only for the binary deltas exactly at the strike",
     "tiny t or sigma: |price - certain payoff| <= 2 (S+K+M) sigma sqrt(t) + rounding",
 ]
+ANCHORS = ['pfhedge.nn.functional:d1',
+           'pfhedge.nn.functional:d2',
+           'pfhedge.nn.functional:bs_european_gamma',
+           'pfhedge.nn.functional:bs_european_theta',
+           'pfhedge.nn.functional:bs_european_binary_delta',
+           'pfhedge.nn.functional:bs_american_binary_delta',
+           'pfhedge.nn.functional:bs_lookback_price',
+           'pfhedge.nn.modules.ww:WhalleyWilmott.forward',
+           'pfhedge.nn.modules.hedger:Hedger.compute_hedge']
+PYTEST_WORKLOAD = True  # thorough tier also runs /repo/tests with these passive monitors attached (DESIGN.md 2.7)
 DECIDING = ["nan_watch", "limit.price", "limit.delta", "reject.negative", "hedger.finite"]
 REQUIRED_BRANCHES = ["t=0", "sigma=0", "both=0", "tiny", "at_strike", "hedger.bs", "hedger.ww"]
 
